@@ -529,6 +529,9 @@ class Gen:
                 items.append({"k": "stmt", "code": self.stmt(ints), "comment": None})
             elif self.hook_names:
                 items.append({"k": "hook", "add": r.random() < 0.6, "target": r.choice(self.hook_names)})
+        if self.p("join_arrows"):
+            # prose that looks like a jump: inside the block of a `-> @join` choice a line starting with -> is text
+            items.append({"k": "line", "parts": [("t", "-> " + r.choice(self.names[1:]))], "glue": False, "tags": [], "comment": None})
         return items
 
     def hook_passage(self, name):
